@@ -333,6 +333,16 @@ def rule_c(ctx, cr):
               "enter_direct/recompile-clears/cont", clear[0].span,
               "the continuation point is cancelled on the recompile path",
               "the recompile keeps Runtime.cont: CONT resumes at an address of the replaced code")
+    # the READ pointer indexes Link.data, which the recompile rebuilds
+    lc = cr.need_fn("mach::link::Link::clear")
+    ctx.touch(lc)
+    dp = [b for b, st, v in lc.field_stores("data_pos") if lc.describe_value(v) == "const:0"]
+    rets = set(lc.return_blocks())
+    ctx.check(bool(dp) and not (lc.reach_set(0, avoid=set(dp)) & rets), "C04.c",
+              "Link::clear/resets-data_pos", lc.span,
+              "the DATA read pointer is rewound when the data segment is rebuilt",
+              "Link::clear empties the data segment but keeps data_pos: after an edit a direct "
+              "READ / GOTO continues from the old position inside the NEW program's DATA")
     # pc / entry_address / tr are re-seated from link()'s result on every call
     link = f.calls_to("mach::program::Program::link")
     ctx.check(len(link) == 1, "C04.c", "enter_direct/link", f.span, "one call to Program::link")
